@@ -77,7 +77,9 @@ func genTxProc(r *core.Rng, nstmts int) *txProc {
 		p.Files[name+"."+f] = renderFile(f, t)
 		st.Tables = append(st.Tables, txTable{name, name + "." + f, []string{"id", "c1", "c2"}})
 	}
-	p.Files["untouched.csv"] = "id,v\n1,keep me\n2,\"as, is\"\n"
+	// spelled as csvq itself would not write it (needless quotes, no line break after the last record):
+	// any rewrite of this file, even with the same cells, changes its bytes
+	p.Files["untouched.csv"] = "id,v\n1,\"keep me\"\n2,\"as, is\""
 	p.Initial = st.clone().Tables
 	committed := st.clone()
 	ntemp := r.Intn(3)
@@ -99,7 +101,10 @@ func genTxProc(r *core.Rng, nstmts int) *txProc {
 		t := &st.Tables[r.Intn(len(st.Tables))]
 		tn := "`" + t.Name + "`"
 		second := t.Cols[1]
-		switch r.Intn(9) {
+		switch r.Intn(10) {
+		case 9:
+			// names the untouched file as a target but changes no record of it
+			return []string{"UPDATE untouched SET v = 'x' WHERE id > 100000;", "DELETE FROM untouched WHERE id < 0;", "UPDATE untouched SET v = 'x' FROM untouched JOIN f1 ON untouched.id = f1.id + 900000;"}[r.Intn(3)]
 		case 0:
 			st.NextID += 2
 			vals := func(id int) string {
